@@ -15,7 +15,7 @@ import numpy as np
 from mc.core import HarnessError, fail, lib
 from mc.explore import explore
 from mc.rngseam import ScriptedGenerator
-from mc.sched import World, explore_schedules, patched_parallel, run_serial_schedule
+from mc.sched import World, explore_schedules, explore_schedules_learned, patched_parallel, run_serial_schedule
 
 LEVEL = "model_checking"
 
@@ -130,8 +130,23 @@ def ev_schedules(case):
     label = f"N={N}"
     fails, tags = [], set()
     parent = script_parent(kind, N, script, seed, display)
-    r = explore_schedules(parent, capacity=cap, seed=seed)
     conf = dict(case)
+    traces = 0
+    if case.get("engine", "learned") == "plain":
+        r = explore_schedules(parent, capacity=cap, seed=seed)
+    else:
+        r = explore_schedules_learned(parent, capacity=cap, seed=seed)
+        traces = r["conformance_checks"]
+        if case.get("crosscheck"):
+            # the learned-step search must reproduce the plain search (every state reached by a real execution) exactly;
+            # the learned graph has one extra state and transition: the not-yet-started world and the parent's first step
+            r0 = explore_schedules(parent, capacity=cap, seed=seed)
+            same = (r["states"] - 1 == r0["states"] and r["transitions"] - 1 == r0["transitions"] and set(r["finals"]) == set(r0["finals"])
+                    and len(r["deadlocks"]) == len(r0["deadlocks"]) and bool(r["worker_errors"]) == bool(r0["worker_errors"]))
+            if not same:
+                raise HarnessError(f"learned-step search disagrees with the plain search: {r['states'] - 1}/{r['transitions'] - 1}/{len(r['finals'])} vs "
+                                   f"{r0['states']}/{r0['transitions']}/{len(r0['finals'])}")
+            traces += r0["runs"]
     if r["worker_errors"]:
         p, e = r["worker_errors"][0]
         what = "; ".join(f"{k}: {v}" for k, v in e.items())
@@ -161,8 +176,9 @@ def ev_schedules(case):
                 if any(out["alive"]):
                     fails.append(fail("protocol/worker-alive-after-shutdown", f"{out['alive']}", config=conf))
     tags.add(f"{label}:cap={cap}:display={display}:states>{10 ** int(math.log10(max(r['states'], 1)))}")
-    return {"fails": fails, "n": r["runs"], "states": r["states"], "transitions": r["transitions"], "tags": tags,
-            "sample": {"script": script, "N": N, "states": r["states"], "transitions": r["transitions"], "finals": len(r["finals"]), "max_depth": r["max_depth"]}}
+    return {"fails": fails, "n": r["runs"], "states": r["states"], "transitions": r["transitions"], "tags": tags, "traces": traces,
+            "sample": {"script": script, "N": N, "states": r["states"], "transitions": r["transitions"], "finals": len(r["finals"]), "max_depth": r["max_depth"],
+                       "real_executions": r["runs"], "learned_steps": r.get("learned_steps")}}
 
 
 # --------------------------------------------------------------------------- exchange rule (Engine A inside a serial schedule)
@@ -265,6 +281,14 @@ def _check_round(rd, ri, ctx, N, ladder, kind, lname, add_fail, tags):
         for i in range(N):
             if i not in touched and chain_bytes(after[i]) != chain_bytes(before[i]):
                 add_fail("exchange/unexchanged-chain-modified", f"chain {i}", choices=ctx.choices)
+            # the reported mode is a recorded sample of maximal recorded probability, also right after an exchange
+            S_, P_ = np.asarray(after[i].get_sample(burn=0)), np.asarray(after[i].get_probabilities(burn=0))
+            with lib("mode-after-exchange"):
+                m_ = np.asarray(after[i].mode()).reshape(-1)
+            rows = [k for k in range(S_.shape[0]) if np.array_equal(S_[k], m_)]
+            if not rows or max(P_[k] for k in rows) < P_.max():
+                add_fail("exchange/mode-not-the-recorded-sample-of-maximal-probability-after-exchange",
+                         f"chain {i} ({type(after[i]).__name__}): mode {m_.tolist()}, best recorded row {S_[int(P_.argmax())].tolist()}", choices=ctx.choices)
         if len(accepted) < len(pairs):
             tags.add(f"N={N}:rejected-exchange:{kind}")
         tags.add(f"N={N}:pairs={pairs}:round={ri}")
@@ -393,26 +417,34 @@ def run(ck):
     seed = ck.seed
     # ---- schedule independence
     cases = []
-    Ns = (1, 2) if q else (1, 2, 3)
+    Ns = (1, 2, 3)
     maxlen = 2 if q else 3
     for N in Ns:
         for L in range(0, maxlen + 1):
             for script in itertools.product(COMMANDS, repeat=L):
-                if N == 1 and L == maxlen and not q:
-                    continue
                 for display in (True, False):
                     if not display and (L != 1 or script[0] != "steps1"):
                         continue
                     cases.append(dict(chains="mixed" if N > 1 else "GibbsChain", N=N, script=list(script), seed=1 + seed, display=display,
-                                      capacity=None, real=(L <= 1 or (not q and script[0] == "swap"))))
-    rep3 = [["steps1", "swap", "steps1"], ["swap", "swap", "ret"], ["adv52"], ["steps2", "swap", "ret"], ["ret", "steps1", "swap"], ["swap", "steps2", "swap"]]
-    for s in ([["swap"], ["steps1", "swap"], ["ret", "steps2"]] if q else rep3):
+                                      capacity=None, real=(L <= 1 or script[0] == "swap"),
+                                      crosscheck=(N <= 2 and L <= 1) or (N == 2 and L == 2 and script[0] == "swap" and not q) or (N == 3 and L == 1 and script[0] == "swap" and not q)))
+    rep = [["steps1", "swap", "steps1"], ["swap", "swap", "ret"], ["adv52"], ["steps2", "swap", "ret"], ["ret", "steps1", "swap"], ["swap", "steps2", "swap"],
+           ["steps1", "swap", "steps1", "swap"], ["adv52", "swap", "ret"]]
+    for s in (rep[:4] if q else rep):
         cases.append(dict(chains="mixed", N=3, script=s, seed=2 + seed, display=True, capacity=None, real=False))
-    for s in ([["steps1", "swap"]] if q else [["steps1", "swap"], ["swap", "steps1", "ret"], ["adv52"]]):
-        cases.append(dict(chains="GibbsChain", N=2, script=s, seed=3 + seed, display=True, capacity=1, real=False))
+        cases.append(dict(chains="GibbsChain", N=4, script=s[:3], seed=4 + seed, display=True, capacity=None, real=False))
+    for s in ([["steps1", "swap"], ["swap", "ret"]] if q else [["steps1", "swap"], ["swap", "steps1", "ret"], ["adv52"], ["swap", "swap"], ["ret", "ret", "steps2"]]):
+        for N in (2, 3):
+            cases.append(dict(chains="GibbsChain", N=N, script=s, seed=3 + seed, display=True, capacity=1, real=False, crosscheck=(N == 2 and len(s) == 2 and s[0] == "steps1")))
     if not q:
-        for s in rep3[:4]:
-            cases.append(dict(chains="GibbsChain", N=4, script=s[:2], seed=4 + seed, display=True, capacity=None, real=False))
+        for L in (1, 2):
+            for script in itertools.product(COMMANDS, repeat=L):
+                cases.append(dict(chains="GibbsChain", N=4, script=list(script), seed=5 + seed, display=True, capacity=None, real=False))
+        for s in rep[:3]:
+            cases.append(dict(chains="GibbsChain", N=5, script=s[:2], seed=6 + seed, display=True, capacity=None, real=False))
+        for script in itertools.product(COMMANDS, repeat=4):
+            if (sum(COMMANDS.index(c) * 5 ** i for i, c in enumerate(script)) + seed) % 5 == 0:
+                cases.append(dict(chains="mixed", N=2, script=list(script), seed=7 + seed, display=True, capacity=None, real=False))
     ck.run_cases("schedules", cases, chunk=1)
     # conformance runs on real multiprocessing must be made from the (non-daemonic) main process
     seenr = set()
